@@ -29,6 +29,10 @@ def run(repo, run, tier):
     exits(repo, run, m)
     at_target(repo, run, m)
     orientation_preserves_magnitude(repo, run, m)
+    # 'no recorded step overshoots the target': integrate() bounds only the step it REQUESTS (|dt| <= |tf - t|) and records t + dTime unchecked, so the
+    # integrator must never take a step longer than the one it was given -- in particular on the retries of a rejected step
+    from .c05 import retry_step
+    retry_step(repo, run, rule_id="C03.10")
 
 
 # ------------------------------------------------------------------------------------------------
